@@ -1,4 +1,5 @@
 import Props.C05g
+import Props.C05b
 import Props.C08
 import Props.C09
 import Proofs.KeysInstPub
@@ -14,7 +15,12 @@ through `Model/Curve.lean`), each party's public key travels as `to_string(encod
 driver's environment `EcdhWire.env`, the group is Mathlib's group of the curve with the base point of the generated
 table (`Named.baseCtx`: n • G = 0 checked by kernel evaluation).
 
-Hypotheses left: `p` prime and `n` prime for the row (the SEC 2 / FIPS / RFC 5639 facts; `Props/NamedPrimes`).
+`named_exchange_agrees_all_loaders` extends this to every way `ecdh.py` offers to put the keys into the object — generated,
+bytes, DER, PEM, key objects handed over directly — with the two loader calls of each party in either order, and gives the
+shared bytes explicitly (big-endian x((d_A d_B)•G), left-padded to ⌈bitlen p / 8⌉ bytes).
+
+Hypotheses left: `p` prime and `n` prime for the row (the SEC 2 / FIPS / RFC 5639 facts); for the 13 curves of
+`NamedPrimes.unconditionalCurves` none (`exchange_agrees_all_loaders_unconditional`).
 -/
 namespace C05x
 open Ecdh Keys KeysP Curve Jac GroupInterface WeierstrassCurve
@@ -339,24 +345,107 @@ theorem fromSecexp_ok (d x y : Nat) (h1 : 1 ≤ d) (h2 : d < r.n)
   simp only [hc, and_self, not_true_eq_false, if_false, Int.toNat_natCast, hpp,
     fromPublicPoint_novalidate KeysWire.modelExt r hn0 x y hv.1 hv.2.1]
 
-/-- the statement for arbitrary loaders: `opPA`, `opQA` are A's calls that load its private key and B's public key (any of
-the four resp. three ways, any encoding / format), `opPB`, `opQB` likewise for B -/
+/-! #### key OBJECTS handed over directly (`load_private_key`, `load_received_public_key`)
+
+The object given to `load_private_key` is a `SigningKey` of the agreed curve object whose secret multiplier is `d`; the object
+given to `load_received_public_key` is a `VerifyingKey` of that curve object whose stored point **denotes** `d • G` — in any
+representation (`PointJacobi` with any Z, declared order n or none), not only the one the library's own constructors build. -/
+
+/-- `op` loads the private key `k`: generated, decoded (bytes / DER / PEM), or handed over as an object -/
+def PrivLoad (k : Keys.SK) (op : Op Nat EcdhWire.WPt Int) : Prop :=
+  PrivOp k op ∨ ∃ sk : EcdhWire.SK, op = .loadPriv sk ∧ sk.curve = 0 ∧ sk.d = (k.d : Int)
+
+/-- `op` loads the public key of `k`: decoded (bytes in four encodings / DER / PEM), or handed over as an object -/
+def PubLoad (hr : r ∈ Gen.curveTable) (k : Keys.SK) (op : Op Nat EcdhWire.WPt Int) : Prop :=
+  PubOp k.vk op ∨ ∃ vk : EcdhWire.VK, op = .loadPub vk ∧ vk.curve = 0 ∧
+    C05g.KeyPoint (Named.baseCtx r (Named.checked_of_mem hr)) vk.point (((k.d : ℕ) : ℤ) • (Named.baseCtx r (Named.checked_of_mem hr)).G)
+
+/-- the effect of any private-key loader on an object whose curve is set -/
+theorem priv_load_step (hr : r ∈ Gen.curveTable) (hn : r.n.Prime) (k : Keys.SK) (hk : SK.fromSecretExponent KeysWire.modelExt r k.d = .ok k)
+    (h1 : 1 ≤ k.d ∧ k.d < r.n) (op : Op Nat EcdhWire.WPt Int) (hop : PrivLoad k op)
+    (s : State Nat EcdhWire.WPt) (hs : s.curve = some 0) :
+    ∃ sk : EcdhWire.SK, (step (EcdhWire.env #[r]) s op).1 = { s with priv := some sk } ∧ sk.curve = 0 ∧ sk.d = (k.d : Int) := by
+  rcases hop with hop | ⟨sk, rfl, hc, hd⟩
+  · exact ⟨EcdhWire.ofKeysSK 0 k, priv_step r hr hn k hk h1 op hop s hs, rfl, rfl⟩
+  · refine ⟨sk, ?_, hc, hd⟩
+    obtain ⟨cv, pv, pb⟩ := s
+    simp only at hs
+    subst hs
+    simp [step, loadPrivate, hc]
+
+/-- the effect of any public-key loader on an object whose curve is set -/
+theorem pub_load_step (hr : r ∈ Gen.curveTable) (hn : r.n.Prime) (k : Keys.SK) (hk : SK.fromSecretExponent KeysWire.modelExt r k.d = .ok k)
+    (h1 : 1 ≤ k.d ∧ k.d < r.n) (op : Op Nat EcdhWire.WPt Int) (hop : PubLoad r hr k op)
+    (s : State Nat EcdhWire.WPt) (hs : s.curve = some 0) :
+    ∃ vk : EcdhWire.VK, (step (EcdhWire.env #[r]) s op).1 = { s with pub := some vk } ∧ vk.curve = 0 ∧
+      C05g.KeyPoint (Named.baseCtx r (Named.checked_of_mem hr)) vk.point (((k.d : ℕ) : ℤ) • (Named.baseCtx r (Named.checked_of_mem hr)).G) := by
+  rcases hop with hop | ⟨vk, rfl, hc, hd⟩
+  · obtain ⟨x, y, px, vx, rx⟩ := pubKey_denotes r hr hn k.d h1.1 h1.2
+    have e := fromSecexp_ok r k.d x y h1.1 h1.2 px vx
+    have ek : k = ⟨r, k.d, ⟨r, x, y⟩⟩ := by rw [hk] at e; exact Except.ok.inj e
+    refine ⟨EcdhWire.ofKeysVK 0 k.vk, pub_step r hr hn k hk h1 op hop s hs, rfl, ?_⟩
+    rw [ek]
+    exact ⟨_, rfl, rx, Or.inl rfl⟩
+  · refine ⟨vk, ?_, hc, hd⟩
+    obtain ⟨cv, pv, pb⟩ := s
+    simp only at hs
+    subst hs
+    simp [step, loadPublic, hc]
+
+/-- a party's calls: `set_curve`, then its two loaders in either order -/
+def calls (privFirst : Bool) (opP opQ : Op Nat EcdhWire.WPt Int) : List (Op Nat EcdhWire.WPt Int) :=
+  if privFirst then [.setCurve (some 0), opP, opQ] else [.setCurve (some 0), opQ, opP]
+
+/-- the state of a party after its calls: curve object 0, a private key object with multiplier d, a public key object whose
+point denotes d' • G -/
+theorem party_state_all (hr : r ∈ Gen.curveTable) (hn : r.n.Prime) (k k' : Keys.SK)
+    (hk : SK.fromSecretExponent KeysWire.modelExt r k.d = .ok k) (h1 : 1 ≤ k.d ∧ k.d < r.n)
+    (hk' : SK.fromSecretExponent KeysWire.modelExt r k'.d = .ok k') (h1' : 1 ≤ k'.d ∧ k'.d < r.n)
+    (pf : Bool) (opP opQ : Op Nat EcdhWire.WPt Int) (hP : PrivLoad k opP) (hQ : PubLoad r hr k' opQ) :
+    ∃ (sk : EcdhWire.SK) (vk : EcdhWire.VK),
+      run (EcdhWire.env #[r]) ⟨none, none, none⟩ (calls pf opP opQ) = ⟨some 0, some sk, some vk⟩ ∧ sk.curve = 0 ∧ sk.d = (k.d : Int) ∧
+      vk.curve = 0 ∧ C05g.KeyPoint (Named.baseCtx r (Named.checked_of_mem hr)) vk.point
+        (((k'.d : ℕ) : ℤ) • (Named.baseCtx r (Named.checked_of_mem hr)).G) := by
+  cases pf with
+  | true =>
+    obtain ⟨sk, s1, c1, d1⟩ := priv_load_step r hr hn k hk h1 opP hP ⟨some 0, none, none⟩ rfl
+    obtain ⟨vk, s2, c2, kp⟩ := pub_load_step r hr hn k' hk' h1' opQ hQ ⟨some 0, some sk, none⟩ rfl
+    refine ⟨sk, vk, ?_, c1, d1, c2, kp⟩
+    show run (EcdhWire.env #[r]) (step (EcdhWire.env #[r]) (step (EcdhWire.env #[r]) ⟨some 0, none, none⟩ opP).1 opQ).1 [] = _
+    rw [s1, s2]; rfl
+  | false =>
+    obtain ⟨vk, s1, c2, kp⟩ := pub_load_step r hr hn k' hk' h1' opQ hQ ⟨some 0, none, none⟩ rfl
+    obtain ⟨sk, s2, c1, d1⟩ := priv_load_step r hr hn k hk h1 opP hP ⟨some 0, none, some vk⟩ rfl
+    refine ⟨sk, vk, ?_, c1, d1, c2, kp⟩
+    show run (EcdhWire.env #[r]) (step (EcdhWire.env #[r]) (step (EcdhWire.env #[r]) ⟨some 0, none, none⟩ opQ).1 opP).1 [] = _
+    rw [s1, s2]; rfl
+
+/-- the statement for arbitrary loaders: `opPA`, `opQA` are A's calls that load its private key and B's public key (generated,
+decoded in any encoding / format, or handed over as objects), `opPB`, `opQB` likewise for B.  Both parties obtain the same
+integer x((d_A d_B)•G) and the same bytes — and these bytes are given explicitly: the big-endian digits of that integer
+left-padded with zeros to ⌈bitlen p / 8⌉ bytes (`C05b.secret_bytes` composed in).  Each party may call its two loaders in either
+order (`pfA`, `pfB`). -/
 def ExchangeAgreesAll (hr : r ∈ Gen.curveTable) (dA dB : Nat) : Prop :=
   ∃ kA kB : Keys.SK, kA.d = dA ∧ kB.d = dB ∧
     SK.fromSecretExponent KeysWire.modelExt r dA = .ok kA ∧ SK.fromSecretExponent KeysWire.modelExt r dB = .ok kB ∧
-    ∀ opPA opQA opPB opQB, PrivOp kA opPA → PubOp kB.vk opQA → PrivOp kB opPB → PubOp kA.vk opQB →
+    ∀ (pfA pfB : Bool) opPA opQA opPB opQB, PrivLoad kA opPA → PubLoad r hr kB opQA → PrivLoad kB opPB → PubLoad r hr kA opQB →
       let env := EcdhWire.env #[r]
       let C := Named.baseCtx r (Named.checked_of_mem hr)
-      let sA := run env ⟨none, none, none⟩ [.setCurve (some 0), opPA, opQA]
-      let sB := run env ⟨none, none, none⟩ [.setCurve (some 0), opPB, opQB]
+      let sA := run env ⟨none, none, none⟩ (calls pfA opPA opQA)
+      let sB := run env ⟨none, none, none⟩ (calls pfB opPB opQB)
+      let v := GroupInterface.xOf (((dA : ℤ) * (dB : ℤ)) • C.G)
+      let L := (bitLength r.p + 7) / 8
       (step env sA .secret).2 = (step env sB .secret).2 ∧
       (step env sA .secretBytes).2 = (step env sB .secretBytes).2 ∧
-      getSharedSecret env sA = (if ((dA : ℤ) * (dB : ℤ)) • C.G = 0 then .error .invalidSharedSecret
-        else .ok (GroupInterface.xOf (((dA : ℤ) * (dB : ℤ)) • C.G)))
+      getSharedSecret env sA = (if ((dA : ℤ) * (dB : ℤ)) • C.G = 0 then .error .invalidSharedSecret else .ok v) ∧
+      (((dA : ℤ) * (dB : ℤ)) • C.G ≠ 0 →
+        (step env sA .secretBytes).2 = .ok (.bytes (beFixed L v.toNat)) ∧
+        (step env sB .secretBytes).2 = .ok (.bytes (beFixed L v.toNat)) ∧
+        (beFixed L v.toNat).length = L ∧ (beVal (beFixed L v.toNat) : ℤ) = v)
 
-/-- **named_exchange_agrees_all_loaders** — the exchange theorem for every combination of loaders: private key generated or
-loaded from bytes / DER (ssleay, PKCS#8) / PEM, peer's public key loaded from raw / uncompressed / compressed / hybrid bytes,
-DER or PEM -/
+/-- **named_exchange_agrees_all_loaders** — the exchange theorem for every combination of loaders: private key generated,
+loaded from bytes / DER (ssleay, PKCS#8) / PEM or given as an object; peer's public key loaded from raw / uncompressed /
+compressed / hybrid bytes, DER, PEM or given as an object; with the explicit value of the shared bytes -/
 theorem named_exchange_agrees_all_loaders (hr : r ∈ Gen.curveTable) (hn : r.n.Prime) (dA dB : Nat)
     (hA : 1 ≤ dA ∧ dA < r.n) (hB : 1 ≤ dB ∧ dB < r.n) : ExchangeAgreesAll r hr dA dB := by
   obtain ⟨xA, yA, pA, vA, rA⟩ := pubKey_denotes r hr hn dA hA.1 hA.2
@@ -364,26 +453,43 @@ theorem named_exchange_agrees_all_loaders (hr : r ∈ Gen.curveTable) (hn : r.n.
   have eA := fromSecexp_ok r dA xA yA hA.1 hA.2 pA vA
   have eB := fromSecexp_ok r dB xB yB hB.1 hB.2 pB vB
   refine ⟨⟨r, dA, ⟨r, xA, yA⟩⟩, ⟨r, dB, ⟨r, xB, yB⟩⟩, rfl, rfl, eA, eB, ?_⟩
-  intro opPA opQA opPB opQB hPA hQA hPB hQB env C sA sB
-  have stA : sA = ⟨some 0, some (EcdhWire.ofKeysSK 0 ⟨r, dA, ⟨r, xA, yA⟩⟩), some (EcdhWire.ofKeysVK 0 ⟨r, xB, yB⟩)⟩ := by
-    show run env (step env (step env ⟨some 0, none, none⟩ opPA).1 opQA).1 [] = _
-    rw [priv_step r hr hn ⟨r, dA, ⟨r, xA, yA⟩⟩ eA hA opPA hPA _ rfl,
-      pub_step r hr hn ⟨r, dB, ⟨r, xB, yB⟩⟩ eB hB opQA hQA _ rfl]
-    rfl
-  have stB : sB = ⟨some 0, some (EcdhWire.ofKeysSK 0 ⟨r, dB, ⟨r, xB, yB⟩⟩), some (EcdhWire.ofKeysVK 0 ⟨r, xA, yA⟩)⟩ := by
-    show run env (step env (step env ⟨some 0, none, none⟩ opPB).1 opQB).1 [] = _
-    rw [priv_step r hr hn ⟨r, dB, ⟨r, xB, yB⟩⟩ eB hB opPB hPB _ rfl,
-      pub_step r hr hn ⟨r, dA, ⟨r, xA, yA⟩⟩ eA hA opQB hQB _ rfl]
-    rfl
+  intro pfA pfB opPA opQA opPB opQB hPA hQA hPB hQB env C sA sB v L
+  -- the two states
+  obtain ⟨skA, vkB, stA, cA, dAe, cvB, kpB⟩ := party_state_all r hr hn ⟨r, dA, ⟨r, xA, yA⟩⟩ ⟨r, dB, ⟨r, xB, yB⟩⟩ eA hA eB hB pfA opPA opQA hPA hQA
+  obtain ⟨skB, vkA, stB, cB, dBe, cvA, kpA⟩ := party_state_all r hr hn ⟨r, dB, ⟨r, xB, yB⟩⟩ ⟨r, dA, ⟨r, xA, yA⟩⟩ eB hB eA hA pfB opPB opQB hPB hQB
+  change sA = _ at stA
+  change sB = _ at stB
   have hp2 : r.p ≠ 2 := (Named.matches_row (Named.checked_of_mem hr) hn).hp2
   have hu := C05g.driver_uses_curve_model #[r]
-  have kA : C05g.KeyPoint C (EcdhWire.ofKeysVK 0 ⟨r, xA, yA⟩).point (((dA : ℕ) : ℤ) • C.G) := ⟨_, rfl, rA, Or.inl rfl⟩
-  have kB : C05g.KeyPoint C (EcdhWire.ofKeysVK 0 ⟨r, xB, yB⟩).point (((dB : ℕ) : ℤ) • C.G) := ⟨_, rfl, rB, Or.inl rfl⟩
-  obtain ⟨h1, h2, h3, _⟩ := C05g.shared_secret_value hp2 C env hu sA sB
-    (EcdhWire.ofKeysSK 0 ⟨r, dA, ⟨r, xA, yA⟩⟩) (EcdhWire.ofKeysSK 0 ⟨r, dB, ⟨r, xB, yB⟩⟩)
-    (EcdhWire.ofKeysVK 0 ⟨r, xA, yA⟩) (EcdhWire.ofKeysVK 0 ⟨r, xB, yB⟩)
-    (by rw [stA]; exact ⟨rfl, rfl, rfl, rfl⟩) (by rw [stB]; exact ⟨rfl, rfl, rfl, rfl⟩) rfl kA kB
-  exact ⟨by rw [h1], by rw [h2], h3⟩
+  simp only at dAe dBe kpA kpB
+  rw [← dAe] at kpA
+  rw [← dBe] at kpB
+  obtain ⟨h1, h2, h3, h4⟩ := C05g.shared_secret_value hp2 C env hu sA sB skA skB vkA vkB
+    (by rw [stA]; exact ⟨rfl, rfl, by rw [cA], by rw [cvB, cA]⟩) (by rw [stB]; exact ⟨rfl, rfl, by rw [cB], by rw [cvA, cB]⟩)
+    (by rw [cA, cB]) kpA kpB
+  rw [dAe, dBe] at h3 h4
+  refine ⟨by rw [h1], by rw [h2], h3, ?_⟩
+  intro hne
+  have hv : getSharedSecret env sA = .ok v := by rw [h3, if_neg hne]
+  have hfp : env.fieldP skA.curve = r.p := by rw [cA]; rfl
+  have key := C05b.secret_bytes env sA v skA (by rw [stA]) hv h4.1 (by rw [hfp]; exact h4.2)
+  simp only [hfp] at key
+  have bA : (step env sA .secretBytes).2 = .ok (.bytes (beFixed L v.toNat)) := by rw [key.1]
+  refine ⟨bA, ?_, key.2.1, ?_⟩
+  · rw [← bA, h2]
+  · rw [key.2.2]; exact Int.toNat_of_nonneg h4.1
+
+/-- non-vacuity of the object clauses: the key objects the library itself builds for `k` are such objects -/
+theorem object_loaders_inhabited (hr : r ∈ Gen.curveTable) (hn : r.n.Prime) (k : Keys.SK)
+    (hk : SK.fromSecretExponent KeysWire.modelExt r k.d = .ok k) (h1 : 1 ≤ k.d ∧ k.d < r.n) :
+    PrivLoad k (.loadPriv (EcdhWire.ofKeysSK 0 k)) ∧ ¬ PrivOp k (.loadPriv (EcdhWire.ofKeysSK 0 k)) ∧
+    PubLoad r hr k (.loadPub (EcdhWire.ofKeysVK 0 k.vk)) ∧ ¬ PubOp k.vk (.loadPub (EcdhWire.ofKeysVK 0 k.vk)) := by
+  refine ⟨Or.inr ⟨_, rfl, rfl, rfl⟩, id, Or.inr ⟨_, rfl, rfl, ?_⟩, id⟩
+  obtain ⟨x, y, px, vx, rx⟩ := pubKey_denotes r hr hn k.d h1.1 h1.2
+  have e := fromSecexp_ok r k.d x y h1.1 h1.2 px vx
+  have ek : k = ⟨r, k.d, ⟨r, x, y⟩⟩ := by rw [hk] at e; exact Except.ok.inj e
+  rw [ek]
+  exact ⟨_, rfl, rx, Or.inl rfl⟩
 
 /-! ### with the primality certificates of `Props/NamedPrimes`: no hypothesis left
 
@@ -416,6 +522,20 @@ open Named in
 theorem nist256p_exchange_agrees_all_loaders (dA dB : Nat) (hA : 1 ≤ dA ∧ dA < Gen.curve_NIST256p.n)
     (hB : 1 ≤ dB ∧ dB < Gen.curve_NIST256p.n) : ExchangeAgreesAll Gen.curve_NIST256p mem_NIST256p dA dB :=
   named_exchange_agrees_all_loaders Gen.curve_NIST256p mem_NIST256p NamedPrimes.prime_n_NIST256p dA dB hA hB
+
+/-- **every loader, unconditional on the 13 curves of `NamedPrimes.unconditionalCurves`** (p and n carry kernel-checked
+primality certificates, n • G = 0 is checked by kernel evaluation): no hypothesis about the curve is left -/
+theorem exchange_agrees_all_loaders_unconditional (r : Gen.CurveRow) (hr : r ∈ NamedPrimes.unconditionalCurves) (dA dB : Nat)
+    (hA : 1 ≤ dA ∧ dA < r.n) (hB : 1 ≤ dB ∧ dB < r.n) :
+    haveI : Fact r.p.Prime := ⟨(NamedPrimes.unconditional_subset r hr).2.1⟩
+    ExchangeAgreesAll r (NamedPrimes.unconditional_subset r hr).1 dA dB := by
+  haveI : Fact r.p.Prime := ⟨(NamedPrimes.unconditional_subset r hr).2.1⟩
+  exact named_exchange_agrees_all_loaders r (NamedPrimes.unconditional_subset r hr).1 (NamedPrimes.unconditional_subset r hr).2.2 dA dB hA hB
+
+/-- non-vacuity: the list has 13 curves, among them one with cofactor 4 -/
+example : NamedPrimes.unconditionalCurves.length = 13 ∧ Gen.curve_SECP112r2 ∈ NamedPrimes.unconditionalCurves ∧
+    Gen.curve_BRAINPOOLP320r1 ∈ NamedPrimes.unconditionalCurves := by
+  refine ⟨rfl, ?_, ?_⟩ <;> simp [NamedPrimes.unconditionalCurves]
 
 /-- non-vacuity: the scalar ranges are inhabited (d_A = 1, d_B = 2 on P-256) -/
 example : (1 ≤ 1 ∧ 1 < Gen.curve_NIST256p.n) ∧ (1 ≤ 2 ∧ 2 < Gen.curve_NIST256p.n) := by decide
